@@ -9,6 +9,7 @@ import hashlib
 import itertools
 import os
 import re
+import shutil
 import subprocess
 
 import z3
@@ -313,6 +314,15 @@ def syscall_validation(chk, w, root, r, stale_cwd, stale_in_dir, same_dir, has_f
     if ev['rc'] != 0:
         chk.broken('C18 %s: engine predicts a normal run, the real binary exits with %d: %s' % (label, ev['rc'], ev['stderr']))
     if want_reads != got_reads or want_dirs != got_dirs:
+        # the engine lists directories in ONE order, the file system in another: where the code's reads depend on the listing order the two logs
+        # differ without either being wrong. What the property needs from the real run is decided on the real log itself: every eligible file is
+        # read once per category (a file that is not read cannot be in the result, so what else lies in the directory -- the older report --
+        # would influence the result)
+        elig = norm(real_rel(w, k, root) for k, v in w.files.items() if v['name'].v.endswith('.sol') and '.t.sol' not in v['name'].v.lower())
+        if sorted(got_reads) != sorted(elig * 3):
+            chk.violation('main:effects', 'solstat with %s: the compiled binary reads %r, expected each of %r once per category (the engine\'s run, with another listing order, reads %r)' % (
+                label, got_reads, elig, want_reads), {'job': 'solstat', 'configuration': label, 'reads': got_reads})
+            return
         chk.broken('C18 %s: the engine\'s effect log differs from the system calls of the real binary\nengine reads %r\nreal reads   %r\nengine lists %r\nreal lists   %r' % (
             label, want_reads, got_reads, want_dirs, got_dirs))
     problems = []
@@ -370,8 +380,17 @@ def tree_digest(root, skip=()):
 def native_part(chk):
     """the real binary: tree unchanged, exactly one file created / replaced, stale report overwritten and without influence"""
     binary = os.path.join(chk.world.build, 'solstat')
-    for same_dir in (False, True):
-        base = os.path.join(chk.native.dir, 'run%d' % chk.native.n)
+    import tempfile
+    shm = '/dev/shm' if os.path.isdir('/dev/shm') and os.access('/dev/shm', os.W_OK) else None
+    shm_dirs = []
+    for same_dir, on_shm in [(False, False), (True, False)] + ([(True, True)] if shm else []):
+        # the third pass repeats "the working directory is the analysed directory" on a file system that lists the newest entry first
+        # (tmpfs): the report of the previous run is then the FIRST entry the next run meets
+        if on_shm:
+            base = tempfile.mkdtemp(prefix='solstat-verif-c18-', dir=shm)
+            shm_dirs.append(base)
+        else:
+            base = os.path.join(chk.native.dir, 'run%d' % chk.native.n)
         chk.native.n += 1
         cwd = os.path.join(base, 'cwd')
         target = cwd if same_dir else os.path.join(base, 'project')
@@ -476,6 +495,8 @@ def native_part(chk):
             chk.violation('run:stale-report-influences-result', 'three runs over the same tree (no / large / entry-like stale report) wrote different reports', {'job': 'solstat'})
         else:
             chk.ok()
+    for d_ in shm_dirs:
+        shutil.rmtree(d_, ignore_errors=True)
     chk.sample({'native': 'real binary, cwd = / != analysed directory, no / large / entry-like stale report, nested tree with a binary file and a .t.sol file'})
 
 
